@@ -90,7 +90,7 @@ def exact_sign(n, p, v):
 def run_clause(res, rng, tier, recs, replay_case=None):
     cases = [replay_case] if replay_case else gen_cases(rng, tier, recs)
     cases = [c for c in cases if all(math.isfinite(C.b2f(x)) for w in c[1:] for x in w)]
-    wd = os.path.join(C.CACHE, "run", "c05")
+    wd = C.rundir("c05")
     os.makedirs(wd, exist_ok=True)
     cf = os.path.join(wd, "hsclip.cases")
     with open(cf, "w") as f:
